@@ -480,7 +480,7 @@ func @Plain() int {
 	return n
 }`, Drives: []Drive{gen("int", "@Chain", ""), gen("int", "@Switch", ""), fn("int", "@Plain", "")}},
 
-	{Name: "ExplicitlyInstantiatedYield", Props: []string{"C01", "C02", "C11"}, Src: `
+	{Name: "ExplicitlyInstantiatedYield", Props: []string{"C01", "C02", "C05", "C11"}, Src: `
 // Yield with an explicit type argument (needed where the element type cannot be inferred) in every statement
 // position: body, for-init, for-post, switch-init, a case body, a nested block
 GEN(int) @Countdown(n int) {
@@ -509,7 +509,25 @@ GEN(float64) @Halves(n int) {
 		}
 	}
 	RETURN
-}`, Drives: []Drive{gen("int", "@Countdown", "3"), gen("int", "@Pairs", "3"), gen("float64", "@Halves", "3")}},
+}
+// the same for YieldFrom: in a statement list, as a for-post, with a delegate that writes the argument too
+GEN(int) @Inner(a, n int) {
+	vm.E("start", a)
+	for i := 0; i < n; i++ { YIELDT(int, a + i) }
+	vm.E("end", a)
+	RETURN
+}
+GEN(int) @Outer(n int) {
+	YIELD(1)
+	YIELDFROMT(int, GENCALL(int, @Inner, 10, n))
+	vm.E("after", 10)
+	for k := 0; k < 2; YIELDFROMT(int, GENCALL(int, @Inner, 20 + k, 1)) {
+		k++
+		YIELDFROM(GENCALL(int, @Inner, 30 + k, 1))
+	}
+	YIELD(2)
+	RETURN
+}`, Drives: []Drive{gen("int", "@Countdown", "3"), gen("int", "@Pairs", "3"), gen("float64", "@Halves", "3"), gen("int", "@Outer", "3"), gen("int", "@Outer", "0")}},
 
 	{Name: "RangeChanLazy", Props: []string{"C02", "C04", "C10"}, Src: `
 // a range over a channel receives one value per iteration, when the iteration starts: never ahead
@@ -567,6 +585,78 @@ func @Flat(n int) int {
 	}
 	return t
 }`, Drives: []Drive{fn("int", "@Flat", "3")}},
+
+	{Name: "InterfaceElementTypes", Props: []string{"C14", "C08", "C11"}, Src: `
+// generators whose element types are DIFFERENT interface types, in one process, advanced alternately: nothing in
+// the runtime may be shared between them (e.g. keyed by the dynamic type of a zero value, nil for every interface)
+type @named interface{ Name() string }
+type @item struct{ n int }
+func (x @item) Name() string { return "item" }
+func (x @item) Error() string { return "e" }
+GEN(any) @Anys(n int) {
+	for i := 0; i < n; i++ { if i%2 == 0 { continue }; YIELDT(any, i) }
+	RETURN
+}
+GEN(error) @Errs(n int) {
+	for i := 0; i < n; i++ { if i == 1 { continue }; YIELDT(error, @item{i}) }
+	RETURN
+}
+GEN(@named) @Names(n int) {
+	i := 0
+	for { if i >= n { break }; YIELDT(@named, @item{i}); i++ }
+	RETURN
+}
+func @Mix(n int) int {
+	a, e, m := GENCALL(any, @Anys, n), GENCALL(error, @Errs, n), GENCALL(@named, @Names, n)
+	t := 0
+	for k := 0; k < n+1; k++ {
+		if a.MoveNext() { t += a.Current().(int) }
+		if e.MoveNext() { t += 10 * len(e.Current().Error()) }
+		if m.MoveNext() { t += 100 * len(m.Current().Name()) }
+	}
+	return t
+}`, Drives: []Drive{fn("int", "@Mix", "4"), fn("int", "@Mix", "1")}},
+
+	{Name: "RangeOperandEffects", Props: []string{"C18", "C04", "C02", "C12"}, Src: `
+// the range operand is evaluated exactly once, whatever the form of the range clause and even when no iteration
+// variable (or only the key) is used: its effects and its panics are the program's. One operand at a time
+// (number bad) panics.
+func @p(k, idx, bad int) int { if idx == bad { return -1 }; return k }
+func @arr(k int) [3]int { vm.E("arr", k); if k < 0 { panic("arr: negative") }; return [3]int{k, k + 1, k + 2} }
+func @sl(k int) []int { vm.E("sl", k); if k < 0 { panic("sl: negative") }; return []int{k, k + 1} }
+func @mp(k int) map[int]int { vm.E("mp", k); if k < 0 { panic("mp: negative") }; return map[int]int{k: 1} }
+func @str(k int) string { vm.E("str", k); if k < 0 { panic("str: negative") }; return "ab" }
+func @num(k int) int { vm.E("num", k); if k < 0 { panic("num: negative") }; return 2 }
+func @must(k int) int { vm.E("must", k); if k < 0 { panic("must: negative") }; return k }
+GEN(int) @KeyOnly(k, bad int) {
+	YIELD(-1)
+	for i := range @arr(@p(k, 1, bad)) { YIELD(i) }
+	for i := range [2]int{@must(@p(k, 2, bad)), @must(k + 1)} { YIELD(10 + i) }
+	for i := range @sl(@p(k, 3, bad)) { YIELD(20 + i) }
+	for i := range @str(@p(k, 4, bad)) { YIELD(30 + i) }
+	for i := range @num(@p(k, 5, bad)) { YIELD(40 + i) }
+	for range @mp(@p(k, 6, bad)) { YIELD(50) }
+	YIELD(99)
+	RETURN
+}
+GEN(int) @NoVars(k, bad int) {
+	YIELD(-1)
+	for range @arr(@p(k, 1, bad)) { YIELD(1) }
+	for range [2]int{@must(@p(k, 2, bad)), 0} { YIELD(2) }
+	for range @sl(@p(k, 3, bad)) { YIELD(3) }
+	for range @str(@p(k, 4, bad)) { YIELD(4) }
+	for range @num(@p(k, 5, bad)) { YIELD(5) }
+	for i, _ := range @arr(@p(k, 6, bad)) { YIELD(60 + i) }
+	var j int
+	for j = range @arr(@p(k, 7, bad)) { YIELD(70 + j) }
+	for j, _ = range @arr(@p(k, 8, bad)) { YIELD(80 + j) }
+	for _, v := range @arr(@p(k, 9, bad)) { YIELD(90 + v) }
+	YIELD(99)
+	RETURN
+}`, Drives: []Drive{gen("int", "@KeyOnly", "1, 0"), gen("int", "@KeyOnly", "1, 1"), gen("int", "@KeyOnly", "1, 2"), gen("int", "@KeyOnly", "1, 3"),
+		gen("int", "@KeyOnly", "1, 4"), gen("int", "@KeyOnly", "1, 5"), gen("int", "@KeyOnly", "1, 6"),
+		gen("int", "@NoVars", "2, 0"), gen("int", "@NoVars", "2, 1"), gen("int", "@NoVars", "2, 2"), gen("int", "@NoVars", "2, 3"), gen("int", "@NoVars", "2, 4"),
+		gen("int", "@NoVars", "2, 5"), gen("int", "@NoVars", "2, 6"), gen("int", "@NoVars", "2, 7"), gen("int", "@NoVars", "2, 8"), gen("int", "@NoVars", "2, 9")}},
 
 	{Name: "EtaNiladicClosures", Props: []string{"C07", "C13"}, Src: `
 // closures without parameters can still differ from their callee: in the result type, in variadicity
